@@ -120,6 +120,18 @@ func c15Run(front string, keys []kit.KeySpec, cn C15Conn, cacheOn bool, idx int)
 		}
 		return c.(*net.TCPConn), nil
 	}
+	if cn.Kind == "replay_server" && cacheOn && key.SaltSize() >= 20 && cn.Seed%2 == 0 {
+		// the same reflected handshake was already presented once: the second presentation is still a *server* replay
+		c0, err := dial()
+		if err != nil {
+			o.err = err.Error()
+			return
+		}
+		c0.Write(wire)
+		c0.CloseWrite()
+		io.Copy(io.Discard, c0)
+		c0.Close()
+	}
 	if cn.Kind == "replay_client" {
 		// original presentation: a complete small relay
 		c0, err := dial()
